@@ -259,8 +259,18 @@ def run(ctx):
         g = fn_.guards(r)
         if c == "CONTINUE":
             comp = [k for k, p in g if p is True and "lte_" in k and "count_" in k]
-            want = "((this->lte_ && (*nr <= this->count_)) || (!this->lte_ && (*nr > this->count_)))"
-            ctx.check(comp == [want], "nr_dying_descendants:comparison", "return_table", nd.loc(r), "CONTINUE iff (lte ? nr <= count : nr > count) for some cgroup", "CONTINUE under %s" % comp)
+            V = r"(\*\w+|\w+\.value\(\)|\w+)"
+            forms = (r"^\(\(this->lte_ && \(%s <= this->count_\)\) \|\| \(!this->lte_ && \(%s > this->count_\)\)\)$" % (V, V),
+                     r"^\(this->lte_ \? \(%s <= this->count_\) : \(%s > this->count_\)\)$" % (V, V))
+            ok_cmp = len(comp) == 1 and any(re.match(fm, comp[0]) for fm in forms)
+            ctx.check(ok_cmp, "nr_dying_descendants:comparison", "return_table", nd.loc(r), "CONTINUE iff (lte ? nr <= count : nr > count) for some cgroup", "CONTINUE under %s" % comp)
+            # a cgroup whose statistic is unavailable is no match: the compared value is an optional that was tested, not a default
+            avail = any(p is True and (k.endswith("nr_dying_descendants(nullptr)") or re.match(r"^\w+(\.has_value\(\))?$", k)) for k, p in g if "lte_" not in k)
+            defaulted = any("value_or(" in nd.text(x) for x in range(len(nd.nodes)) if nd.nodes[x]["k"] == "call" and nd.nodes[x].get("cname") == "value_or")
+            ctx.check(avail and not defaulted, "nr_dying_descendants:unavailable-is-no-match", "guarded_by", nd.loc(r),
+                      "the count is compared only where it could be read",
+                      "the count is compared although it may be unavailable (a default stands in for it): with lte a cgroup whose cgroup.stat cannot be read "
+                      "counts as 0 dying descendants and matches")
         else:
             ctx.check(c == "STOP", "nr_dying_descendants:otherwise-STOP", "return_table", nd.loc(r), "otherwise STOP", "returns " + str(c))
     # ------------------------------------------------ watched value of memory_above: the largest usage
